@@ -11,6 +11,7 @@ from ..gens import floats, log_floats
 from . import c01
 
 FREQS = [1e7, 1e8, 3e8, 7.5e8, 2e9]
+SCAN_MARK = "[layered tracer: fixed 1-degree launch-angle scan misses roots]"
 C = 299792458.0
 
 
@@ -401,10 +402,17 @@ def layered_cases(draw):
         bounds.append(bounds[-1] - draw(floats(40.0, 400.0)))
     layers = []
     n_prev = None
+    gradient_top = draw(st.booleans())
     for i in range(n_layers):
         rng = [bounds[i + 1], bounds[i]]
         n = draw(floats(1.2, 1.9))
-        layers.append(dict(cls="UniformIce", n=n, range=rng, above=1.0, below=None))
+        if i == 0 and gradient_top:
+            # a gradient-index layer on top: reciprocity must survive the conversion of the
+            # launch angle to the angle at the boundary (Snell with the layer's own profile)
+            layers.append(dict(cls="AntarcticIce", n0=1.78, k=0.43, a=draw(st.sampled_from([0.0132, 0.02, 0.008])),
+                               range=rng, above=1.0, below=None))
+        else:
+            layers.append(dict(cls="UniformIce", n=n, range=rng, above=1.0, below=None))
     ice = dict(cls="LayeredIce", layers=layers, above=1.0, below=draw(st.sampled_from([None, 2.2])))
     pts = []
     for _ in range(2):
@@ -412,6 +420,11 @@ def layered_cases(draw):
         pts.append([draw(floats(-2e3, 2e3)), draw(floats(-2e3, 2e3)), z])
     pts[1][0] = pts[0][0] + draw(floats(-300, 300))
     pts[1][1] = pts[0][1] + draw(floats(-300, 300))
+    if gradient_top and math.hypot(pts[1][0] - pts[0][0], pts[1][1] - pts[0][1]) < 0.1 * abs(bounds[-1]):
+        # keep rays through the gradient layer out of its documented near-vertical regime
+        # (beta <= beta_tolerance: directions, junction points and even the solution count
+        # are only defined to ~0.005/n there; C01 and C18 bound that regime)
+        pts[1][0] = pts[0][0] + 0.1 * abs(bounds[-1]) + draw(floats(0, 200))
     return dict(ice=ice, a=pts[0], b=pts[1],
                 shift=[draw(floats(-2e3, 2e3)), draw(floats(-2e3, 2e3))],
                 angle=draw(st.one_of(floats(-math.pi, math.pi), st.sampled_from([math.pi / 2, math.pi]))))
@@ -449,26 +462,43 @@ def check_layered(case, rec):
     if float(np.linalg.norm(a - b)) < 1e-3:
         rec.case(case, nontrivial=False, classes=["identical_points"])
         return
+    if any(l["cls"] != "UniformIce" for l in case["ice"]["layers"]) and \
+            float(np.hypot(a[0] - b[0], a[1] - b[1])) < 0.1 * abs(case["ice"]["layers"][-1]["range"][0]):
+        rec.case(case, nontrivial=False, classes=["near_vertical_gradient"])
+        return
     fw = _trace("layered", a, b, ice)
     sf = fw.solutions
     geom = "layered tracer, %r <-> %r (layers %r)" % (
-        a.tolist(), b.tolist(), [(l["n"], l["range"]) for l in case["ice"]["layers"]])
+        a.tolist(), b.tolist(), [(l.get("n", l["cls"]), l["range"]) for l in case["ice"]["layers"]])
+    gradient = any(l["cls"] != "UniformIce" for l in case["ice"]["layers"])
     require(bool(fw.exists) == (len(sf) > 0), "exists=%r but %d solutions; %s", fw.exists, len(sf), geom)
     A = [_summary(p, with_atten=False) for p in sf]
     for i, pa in enumerate(A):
         require(math.isfinite(pa["L"]) and pa["L"] >= np.linalg.norm(b - a) * (1 - 1e-9),
                 "solution %d: path_length %r shorter than the chord; %s", i, pa["L"], geom)
     sb = _trace("layered", b, a, ice).solutions
-    require(len(sb) == len(sf), "swapping changes the number of solutions from %d to %d; %s",
-            len(sf), len(sb), geom)
+    if len(sb) != len(sf):
+        # known finding (C18): the layered tracer brackets launch angles on a fixed 91-point
+        # scan and misses pairs of roots inside one step.  Mechanism probe: a 32x finer scan
+        fa, fb = _trace("layered", a, b, ice), _trace("layered", b, a, ice)
+        fa._angle_checks = fb._angle_checks = 2881
+        mark = " " + SCAN_MARK if len(fa.solutions) == len(fb.solutions) else ""
+        raise Violation("swapping changes the number of solutions from %d to %d; %s%s"
+                        % (len(sf), len(sb), geom, mark))
     B = [_summary(p, with_atten=False) for p in sb]
-    pairs, miss = _match(A, B, 1e-6, 1e-5, reverse=True)
+    # (gradient layer: closed-form rounding noise ~1e-9 relative; a wrong Snell conversion
+    # shows at 1e-6 in length and 1e-2 in direction)
+    steep = gradient and any(math.hypot(q["e"][0], q["e"][1]) < 0.05 for q in A + B)
+    # (near-vertical rays through a gradient layer sit in the documented beta_tolerance /
+    # cancellation regime of the analytic sub-paths: directions are only tied to beta_tolerance/n ~ 4e-3 there)
+    pairs, miss = _match(A, B, 1e-6, 1e-5 if not steep else 5e-3, reverse=True)
     require(pairs is not None, "solution %s (L=%r e=%r r=%r) has no reversed counterpart after the swap "
             "(candidates %r); %s", miss, A[miss or 0]["L"] if A else None,
             A[miss or 0]["e"].tolist() if A else None, A[miss or 0]["r"].tolist() if A else None,
             [(q["L"], q["e"].tolist(), q["r"].tolist()) for q in B], geom)
     for i, j in pairs:
-        require(abs(A[i]["T"] - B[j]["T"]) <= 1e-6 * A[i]["T"], "tof differs after the swap; %s", geom)
+        require(abs(A[i]["T"] - B[j]["T"]) <= (1e-6 if not gradient else 2e-6) * A[i]["T"],
+                "tof %r one way, %r the other way; %s", A[i]["T"], B[j]["T"], geom)
     ang = case["angle"]
     sh = np.array([case["shift"][0], case["shift"][1], 0.0])
     mid = np.array([a[0], a[1], 0.0])
@@ -478,19 +508,21 @@ def check_layered(case, rec):
     require(len(sm) == len(sf), "moving the pair changes the number of solutions from %d to %d; %s",
             len(sf), len(sm), geom)
     M = [_summary(p, with_atten=False) for p in sm]
-    pairs, miss = _match(A, M, 1e-7, 1e-6, reverse=False)
+    pairs, miss = _match(A, M, 1e-7 if not gradient else 1e-6, 1e-6 if not steep else 5e-3, reverse=False)
     require(pairs is not None, "solution %s has no counterpart after rotating by %r and shifting by %r; %s",
             miss, ang, case["shift"], geom)
     for i, j in pairs:
-        require(abs(A[i]["T"] - M[j]["T"]) <= 1e-7 * A[i]["T"], "tof changes under the move; %s", geom)
+        require(abs(A[i]["T"] - M[j]["T"]) <= (1e-7 if not gradient else 1e-6) * A[i]["T"],
+                "tof changes under the move; %s", geom)
         for name in ("e", "r"):
             exp = _rot(A[i][name], ang)
-            require(float(np.max(np.abs(exp - M[j][name]))) <= 1e-6,
+            require(float(np.max(np.abs(exp - M[j][name]))) <= (1e-6 if not steep else 5e-3),
                     "%s direction %r should become %r after the rotation, got %r; %s",
                     "emitted" if name == "e" else "received", A[i][name].tolist(), exp.tolist(),
                     M[j][name].tolist(), geom)
     rec.case(case, nontrivial=len(sf) >= 2, classes=["sol=%d" % min(len(sf), 6),
-                                                     "layers=%d" % len(case["ice"]["layers"])])
+                                                     "layers=%d" % len(case["ice"]["layers"])]
+             + (["gradient_layer"] if gradient else []))
 
 
 PROPERTY = Property(
@@ -512,8 +544,10 @@ PROPERTY = Property(
                       "tof = n L / c, invariance under rotation + shift; non-trivial = reflected solutions and "
                       "source off the axis",
                  floors={"has_reflected": 0.4, "xy_offset": 0.6}, classify=_classify_uniform),
-        SubCheck("layered", layered_cases(), check_layered, quick=60, thorough=2500,
-                 rule="2-3 uniform layers x pair inside: swap and rotate/shift relations on the matched solution "
+        SubCheck("layered", layered_cases(), check_layered, quick=120, thorough=2500, quick_shards=12,
+                 floors={"gradient_layer": 0.2},
+                 classify=lambda case, exc: "one-degree-scan-misses-roots" if SCAN_MARK in str(exc) else None,
+                 rule="2-3 layers (uniform, or an exponential layer on top) x pair inside: swap and rotate/shift relations on the matched solution "
                       "sets; non-trivial = at least two solutions",
                  shrink_cap=(40, 240)),
     ],
